@@ -29,11 +29,11 @@ Ltac dbind H :=
   end.
 
 Lemma as_bool_inv : forall v b, as_bool v = ROk b -> v = VBool b.
-Proof. intros [] b H; cbn in H; inversion H; reflexivity. Qed.
+Proof. intros v b H; destruct v; cbn in H; inversion H; reflexivity. Qed.
 
 Lemma as_list_inv : forall mu v l vs, as_list mu v = ROk (l, vs) -> v = VList l.
 Proof.
-  intros mu [] l vs H; cbn in H; try discriminate.
+  intros mu v l vs H; destruct v as [| | | |l0|]; cbn in H; try discriminate.
   destruct (store_get mu l0); inversion H; reflexivity.
 Qed.
 
